@@ -358,9 +358,12 @@ pub open spec fn bytes_ascii(b: Seq<u8>) -> bool { forall|i: int| 0 <= i < b.len
 #[verifier::external_body]
 pub struct ExFromUtf8Error(std::string::FromUtf8Error);
 
+pub uninterp spec fn valid_utf8(b: Seq<u8>) -> bool;
+
 #[verifier::external_body]
 pub fn rws_string_from_utf8(v: Vec<u8>) -> (r: Result<String, std::string::FromUtf8Error>)
     ensures
+        r.is_ok() == valid_utf8(v@),
         bytes_ascii(v@) ==> r.is_ok(),
         r.is_ok() ==> vstd::utf8::encode_utf8(r.unwrap()@) == v@,
         r.is_ok() ==> r.unwrap()@.len() <= v@.len(),
@@ -1139,4 +1142,21 @@ impl RwsToString for std::io::Error {
 pub proof fn axiom_vec_len<T>(v: &Vec<T>)
     ensures v@.len() <= usize::MAX,
 {
+}
+
+// `for x in E.into_iter()`: a Vec is iterated as it is; a HashMap is handed out as a vector of its entries in UNSPECIFIED order
+pub trait RwsIntoIter {
+    type Out;
+    fn rws_into_iter(self) -> Self::Out;
+}
+impl<T> RwsIntoIter for Vec<T> {
+    type Out = Vec<T>;
+    fn rws_into_iter(self) -> (r: Vec<T>)
+        ensures r == self,
+    { self }
+}
+impl<K, V> RwsIntoIter for HashMap<K, V> {
+    type Out = Vec<(K, V)>;
+    #[verifier::external_body]
+    fn rws_into_iter(self) -> (r: Vec<(K, V)>) { self.into_iter().collect() }
 }
